@@ -316,6 +316,8 @@ func c03(c *core.Check) {
 	// ---- R7 every selector of a list is tested
 	r7 := c.Rule("R7", "matcher.match tests every selector of every rule against the element: each iteration of the loop over a rule's selector list reaches sel.Match, and the loop has no early exit (each matching selector contributes its own specificity)", 2)
 	c03Matcher(c, r7)
+	r10 := c.Rule("R10", "an invalid rule is dropped alone: in html/tree, css/validation and css/parser no loop tests an error that it carries over from a previous iteration (an error variable assigned in one iteration and still set in the next makes every following item fail with the first bad one)", 20)
+	staleErrorRule(c, r10, "html/tree", "css/validation", "css/parser")
 }
 
 func c03Matcher(c *core.Check, r *core.Rule) {
